@@ -224,7 +224,10 @@ def _case(draw):
             h = fresh()
             kind = draw(st.sampled_from(CONT))
             S.new(h, kind, "m")
-            ops.append(["new", h, kind, "m"])
+            # the holder is constructed with its element types, or first as a container of scalars that is then
+            # assigned / copied from an empty container of the wanted types (its element types change afterwards)
+            rt = draw(st.sampled_from([0, 0, 1, 2, 3])) if kind != "tup" else 0
+            ops.append(["new", h, kind, "m"] + (["retype%d" % rt] if rt else []))
             attach(h)
         elif o == "newp" and R:
             t = draw(st.sampled_from(R))
@@ -410,6 +413,8 @@ def replay_model(case):
             elif op[2] == "nodea" and len(op) > 4:
                 out.append(("new %d nodea %s %s" % (op[1], op[3], "last" if op[4] == -2 else str(op[4])), None, None))
             else:
+                if len(op) > 4 and str(op[4]).startswith("retype"):
+                    out.append(("retype %s" % op[4][6:], None, None))
                 out.append(("new %d %s %s" % (op[1], op[2], op[3]), None, None))
         elif o == "store":
             s, k, t = op[1], op[2], op[3]
@@ -560,6 +565,8 @@ def run_case(ctx, case):
     for op in case["ops"]:
         if op[0] == "new":
             kinds.add("kind=" + op[2])
+            if len(op) > 4 and str(op[4]).startswith("retype"):
+                kinds.add("holder-retyped")
         elif op[0] in ("tls", "chain", "bulk"):
             kinds.add(op[0])
     return Result(None, nt, ev + sorted(kinds), None)
